@@ -2148,3 +2148,18 @@ def canon_block(stmts, callee_info=None):
                         body=[clone(s) for s in stmts], decorator_list=[], returns=None, type_comment=None, type_params=[])
     ast.fix_missing_locations(f)
     return normal_form(f, callee_info).body
+
+
+def canon_test(e):
+    """canon_expr for an expression in test position: there `not not x` reads `x` (truth value, not value)."""
+    class T(ast.NodeTransformer):
+        def visit_UnaryOp(self, n):
+            self.generic_visit(n)
+            if isinstance(n.op, ast.Not) and isinstance(n.operand, ast.UnaryOp) and isinstance(n.operand.op, ast.Not):
+                return n.operand.operand
+            return n
+    out = canon_expr(e)
+    for _ in range(3):
+        out = T().visit(out)
+        out = _E1(None).visit(out)
+    return out
